@@ -4,7 +4,7 @@
    tools/rect/pseudobool.py, with the isclause repair fixes/C07-isclause-gt0.diff). *)
 From Coq Require Import ZArith List Bool String.
 From FrameModel Require Import PB.Expr PB.Cnf PB.Amo PB.Robdd PB.Codify PB.Sat
-  PB.AmoFacts PB.RobddFacts PB.CodifyFacts PB.SatFacts PB.Dag PB.DagPost PB.DagPostFacts.
+  PB.AmoFacts PB.RobddFacts PB.CodifyFacts PB.SatFacts PB.SatSpan PB.Dag PB.DagPost PB.DagPostFacts.
 Import ListNotations.
 Local Open Scope nat_scope.
 
@@ -79,6 +79,37 @@ Theorem C07_post_exact : forall (m0 : memory) ps, mem_wf m0 -> Forall post_ok ps
     forall a, ext a (clauses s) <-> accepted_hold a ps sts.
 Proof. exact post_exact. Qed.
 Print Assumptions C07_post_exact.
+
+(* a manager that SPANS other managers' encodings: it posts ps1, the store then grows by ANY well-formed
+   extension (C07_robdd_sem: that is what every encoding by whatever manager does to the store - [m' = m ++ ex],
+   [mem_wf m']; no bound on its length), and it posts ps2: exactly the assignments that satisfy every accepted
+   constraint of both extend *)
+Theorem C07_post_span : forall (m0 : memory) ps1 ps2, mem_wf m0 -> Forall post_ok ps1 -> Forall post_ok ps2 ->
+  exists m1 s1 sts1, run_posts m0 empty_mgr ps1 = Some (m1, s1, sts1) /\ List.length sts1 = List.length ps1 /\
+    forall ex : memory, mem_wf (m1 ++ ex) ->
+      exists m2 s2 sts2, run_posts (m1 ++ ex) s1 ps2 = Some (m2, s2, sts2) /\
+        List.length sts2 = List.length ps2 /\
+        forall a, ext a (clauses s2) <-> accepted_hold a ps1 sts1 /\ accepted_hold a ps2 sts2.
+Proof. exact post_span. Qed.
+Print Assumptions C07_post_span.
+
+(* which posts are accepted, and which user assignments extend, does not depend on the store the posts start
+   from (the harness runs the model from the empty store when the implementation's holds 10^3 .. 2^21 nodes) *)
+Theorem C07_post_store_independent : forall (m0 m0' : memory) ps, mem_wf m0 -> mem_wf m0' -> Forall post_ok ps ->
+  exists m s m' s' sts,
+    run_posts m0 empty_mgr ps = Some (m, s, sts) /\ run_posts m0' empty_mgr ps = Some (m', s', sts) /\
+    sts = map post_status ps /\
+    forall a, ext a (clauses s) <-> ext a (clauses s').
+Proof. exact post_store_independent. Qed.
+Print Assumptions C07_post_store_independent.
+
+(* C07_post_exact quantifies over EVERY well-formed store; the hypothesis is satisfiable at every size *)
+Theorem C07_post_exact_any_size : forall n ps, Forall post_ok ps ->
+  exists m0 : memory, List.length m0 = n /\ mem_wf m0 /\
+    exists m s sts, run_posts m0 empty_mgr ps = Some (m, s, sts) /\
+      forall a, ext a (clauses s) <-> accepted_hold a ps sts.
+Proof. exact post_exact_any_size. Qed.
+Print Assumptions C07_post_exact_any_size.
 
 Theorem C07_refused_unchanged : forall (m : memory) s p m' s',
   run_post m s p = Some (m', s', Refused) -> m' = m /\ s' = s.
